@@ -32,8 +32,12 @@ EXHAUSTIVE = {"quick": "axis lengths 1..7: every n in 1..L+1 and None, every beg
 def locate(axis_vals, label, method):
     """Independent lookup: index of label on the (sorted, unique) axis or None."""
     try:
+        if isinstance(label, str) and label.strip() == "":
+            return None
         lab = np.datetime64(pd.Timestamp(label)) if np.issubdtype(axis_vals.dtype, np.datetime64) else label
         if isinstance(lab, str) and not np.issubdtype(axis_vals.dtype, np.str_):
+            return None
+        if lab != lab:  # NaT / NaN
             return None
     except Exception:
         return None
@@ -219,14 +223,17 @@ def shard_offaxis(spec, R):
                 return (pd.Timestamp(axis[0]) - pd.Timedelta(days=int(rng.integers(1, 500)))) if dim == "time" else float(axis[0] - rng.uniform(0.1, 50))
             if kind == "after":
                 return (pd.Timestamp(axis[-1]) + pd.Timedelta(days=int(rng.integers(1, 500)))) if dim == "time" else float(axis[-1] + rng.uniform(0.1, 50))
+            if kind == "garbage":
+                return str(rng.choice(["foo", "2000-13-45", ""])) if dim == "time" else (float("nan") if rng.random() < 0.5 else "foo")
             return pd.Timestamp(axis[0]) if dim == "time" else float(axis[0])
 
-        kb = ["none", "on", "between", "before", "after"][int(rng.integers(0, 5))]
-        ke = ["none", "on", "between", "before", "after"][int(rng.integers(0, 5))]
+        kinds = ["none", "on", "between", "before", "after", "on", "garbage"]
+        kb = kinds[int(rng.integers(0, len(kinds)))]
+        ke = kinds[int(rng.integers(0, len(kinds)))]
         begin, end = pick(kb), pick(ke)
-        if dim == "time" and begin is not None and rng.random() < 0.5:
+        if dim == "time" and begin is not None and kb != "garbage" and rng.random() < 0.5:
             begin = str(begin)
-        if dim == "time" and end is not None and rng.random() < 0.5:
+        if dim == "time" and end is not None and ke != "garbage" and rng.random() < 0.5:
             end = str(end)
         b_ix = None if begin is None else locate(axis, begin, method)
         e_ix = None if end is None else locate(axis, end, method)
@@ -270,7 +277,7 @@ def run_shard(spec, R):
 def finalize(agg, tier):
     c = agg["counters"]
     out = []
-    for k in ("sequences_compared", "windows_expected", "must_raise_cases", "offaxis_begin_between", "offaxis_end_before", "offaxis_begin_after", "missing_dim_raises"):
+    for k in ("sequences_compared", "windows_expected", "must_raise_cases", "offaxis_begin_garbage", "offaxis_begin_between", "offaxis_end_before", "offaxis_begin_after", "missing_dim_raises"):
         if c.get(k, 0) == 0:
             out.append(f"monitor/class {k} never observed")
     for L in range(1, (7 if tier == "quick" else 12) + 1):
